@@ -9,6 +9,7 @@ THEOREMS = [
     "XcmModel.C04.C04_connect_phase_watched", "XcmModel.C04.msgBsend_returns", "XcmModel.C04.socketFinish_returns",
     "XcmModel.C04.C04_blocking_send_returns", "XcmModel.C04.C04_nonblocking_single_call",
     "XcmModel.C16.C16_readable_when_met", "XcmModel.C16.C16_active_fd_iff_bell",
+    "XcmModel.C04btls.C04_btls_handshake_watched", "XcmModel.C04btls.C04_btls_waiter_has_source", "XcmModel.C04btls.C04_btls_terminal_rings", "XcmModel.C04btls.C04_btls_pending_rings",
 ]
 
 
@@ -92,10 +93,17 @@ def run(ctx):
     ctx.assumptions += ["K-epoll and K-progress: a socket reported writable accepts at least one byte; bytes in flight become readable",
                         "the injected faults are EAGAIN and short counts only (what a kernel may answer); resets are C06's subject",
                         "real-time bounds are measured (watchdog 4 s), not proved"]
+    # the TLS connection machine (xcm_tp_btls.c) against the Lean Btls model, with its monitors
+    from gen import btls as _btls
+    _btls.run_part(ctx, 10 if ctx.tier == "quick" else 300, exhaustive=True)
+    ctx.rule += (" unit_btls: the real xcm_tp_btls.c with scripted OpenSSL answers vs the Lean Btls model: every OpenSSL event x first observer x state x verdict, conn_update for every reachable (state, ssl_condition, ssl_wants) x condition x SSL_has_pending, seeded random histories; stickiness/discoverer/rc-range/gating monitors.")
 
 
 def replay(path):
     r = json.load(open(path))
+    if r.get("harness") == "unit_btls":
+        from gen import btls as _btls
+        return _btls.replay(r)
     if r.get("harness") == "sys_loop":
         class C:
             rundir = common.RUN + "/replay"
